@@ -21,6 +21,8 @@ pub fn start_election(dbs: &Arc<Databases>) {
     log::info!("Will start election");
     if dbs.count_cluster_members() <= 1 {
         log::info!("Only one node in the cluster, will set as primary");
+        #[cfg(nun_verif)]
+        crate::verif::tag("election_win", "single");
         election_win(dbs);
         return;
     }
@@ -37,6 +39,8 @@ pub fn start_election(dbs: &Arc<Databases>) {
              */
             while opp.is_none() && start_time < *NUN_ELECTION_TIMEOUT {
                 log::debug!("Waiting for opp to be registered");
+                #[cfg(nun_verif)]
+                crate::verif::yield_point("election.wait_registered");
                 thread::sleep(time::Duration::from_millis(2));
                 start_time = start_time + 2;
                 opp = dbs.get_pending_opp_copy(id);
@@ -44,6 +48,8 @@ pub fn start_election(dbs: &Arc<Databases>) {
 
             if opp.is_none() {
                 log::debug!("No opp registered, will set as primary");
+                #[cfg(nun_verif)]
+                crate::verif::tag("election_win", "not_registered");
                 election_win(dbs);
                 return;
             }
@@ -56,6 +62,8 @@ pub fn start_election(dbs: &Arc<Databases>) {
                     log::info!("No longer eligible to be primary, will stop election");
                     return;
                 }
+                #[cfg(nun_verif)]
+                crate::verif::yield_point("election.wait_acks");
                 thread::sleep(time::Duration::from_millis(2));
                 start_time = start_time + 2;
                 opp = dbs.get_pending_opp_copy(id);
@@ -72,6 +80,8 @@ pub fn start_election(dbs: &Arc<Databases>) {
                 opp = dbs.get_pending_opp_copy(id);
                 if start_time > *NUN_ELECTION_TIMEOUT {
                     log::info!("Election timeout, will claim as primary");
+                    #[cfg(nun_verif)]
+                    crate::verif::tag("election_win", "timeout");
                     election_win(&dbs);
                     return;
                 }
@@ -79,9 +89,13 @@ pub fn start_election(dbs: &Arc<Databases>) {
 
             log::info!("Election acks received");
 
+            #[cfg(nun_verif)]
+            crate::verif::yield_point("election.grace");
             thread::sleep(time::Duration::from_millis(100)); // Will wait for the ack
             if dbs.is_eligible() {
                 log::info!("winning the election");
+                #[cfg(nun_verif)]
+                crate::verif::tag("election_win", "acks");
                 election_win(&dbs);
             }
         }
